@@ -347,7 +347,7 @@ def count_kinds(prog):
     return c
 
 
-# history items: ["ev", k, v|None] | ["started", i] | ["finished", i] | ["hit", i, v] | ["age"] (6 s of idle time)
+# history items: ["ev", k, v|None] | ["started", i] | ["finished", i] | ["hit", i, v] | ["age"] (6 s of idle time) | ["save"] (state -> JSON -> state)
 #   i indexes the running actions; "hit" picks the i-th event name some flow currently waits for (co-simulation)
 def history_item():
     v = st.sampled_from([None, None, 0, 1])
@@ -358,7 +358,7 @@ def history_item():
         st.tuples(st.just("finished"), st.integers(0, 3)),
         st.tuples(st.just("started"), st.integers(0, 3)),
         st.tuples(st.just("started"), st.integers(0, 3)),
-        st.sampled_from([("age",), ("hit", 0, None), ("hit", 1, None)]),
+        st.sampled_from([("age",), ("save",), ("hit", 0, None), ("hit", 1, None)]),
     ).map(list)
 
 
